@@ -10,6 +10,13 @@ import (
 )
 
 func BuildSchemaValidation(schema *openapi3.SchemaRef, validationString string, fieldInterface string) {
+	// A '$ref' cannot carry sibling keywords in OpenAPI 3.0 and its target is shared by every usage site:
+	// the rules of one usage must neither be applied to, nor rewrite, the referenced component.
+	// The target may also not have been materialized yet (forward reference), leaving Value nil.
+	if schema == nil || schema.Ref != "" || schema.Value == nil {
+		return
+	}
+
 	// Parse and apply validation rules from the Validator field
 	validationRules := strings.Split(validationString, ",")
 	for _, rule := range validationRules {
@@ -100,7 +107,11 @@ func BuildSchemaValidation(schema *openapi3.SchemaRef, validationString string, 
 			}
 		case "min":
 			if specType == "string" {
-				schema.Value.MinLength = *swagtool.ParseUInteger(ruleValue)
+				if minLength := swagtool.ParseUInteger(ruleValue); minLength != nil {
+					schema.Value.MinLength = *minLength
+				} else {
+					logger.Warn("Validation rule 'min' expects a non-negative integer, got '%s'", ruleValue)
+				}
 			} else if specType == "integer" || specType == "number" {
 				schema.Value.Min = swagtool.ParseNumber(ruleValue)
 				schema.Value.ExclusiveMin = false
@@ -118,9 +129,12 @@ func BuildSchemaValidation(schema *openapi3.SchemaRef, validationString string, 
 			}
 		case "len":
 			if specType == "string" {
-				length := swagtool.ParseUInteger(ruleValue)
-				schema.Value.MinLength = *length
-				schema.Value.MaxLength = length
+				if length := swagtool.ParseUInteger(ruleValue); length != nil {
+					schema.Value.MinLength = *length
+					schema.Value.MaxLength = length
+				} else {
+					logger.Warn("Validation rule 'len' expects a non-negative integer, got '%s'", ruleValue)
+				}
 			} else {
 				logger.Warn("Validation rule 'len' is only applicable to string fields, got %s", specType)
 			}
@@ -132,7 +146,11 @@ func BuildSchemaValidation(schema *openapi3.SchemaRef, validationString string, 
 			}
 		case "minItems":
 			if specType == "array" {
-				schema.Value.MinItems = *swagtool.ParseUInteger(ruleValue)
+				if minItems := swagtool.ParseUInteger(ruleValue); minItems != nil {
+					schema.Value.MinItems = *minItems
+				} else {
+					logger.Warn("Validation rule 'minItems' expects a non-negative integer, got '%s'", ruleValue)
+				}
 			} else {
 				logger.Warn("Validation rule 'minItems' is only applicable to array fields, got %s", specType)
 			}
@@ -144,7 +162,11 @@ func BuildSchemaValidation(schema *openapi3.SchemaRef, validationString string, 
 			}
 		case "uniqueItems":
 			if specType == "array" {
-				schema.Value.UniqueItems = *swagtool.ParseBool(ruleValue)
+				if uniqueItems := swagtool.ParseBool(ruleValue); uniqueItems != nil {
+					schema.Value.UniqueItems = *uniqueItems
+				} else {
+					logger.Warn("Validation rule 'uniqueItems' expects a boolean, got '%s'", ruleValue)
+				}
 			} else {
 				logger.Warn("Validation rule 'uniqueItems' is only applicable to array fields, got %s", specType)
 			}
